@@ -168,9 +168,13 @@ class ArmPaths:
                 return False, n
         return n > 0, n
 
-    def followed_by(self, cls, a, b_blocks, only_ok=None):
-        """On every path of class cls that contains a (and ends normally), a block of b_blocks occurs after a."""
+    def followed_by(self, cls, a, b_blocks, only_ok=None, same_block=False):
+        """On every path of class cls that contains a (and ends normally), a block of b_blocks occurs after a.
+        same_block: a is a statement and the b's are terminators, so b in the block of a itself comes after a."""
         b_blocks = set(b_blocks)
+        if same_block and a in b_blocks:
+            n = sum(1 for p, c in self.paths if c == cls and a in p and (only_ok is None or only_ok(p)))
+            return n > 0, n
         n = 0
         for p, c in self.paths:
             if c != cls or a not in p:
